@@ -66,7 +66,10 @@ def check_forwarding(ctx, res: Result, callers: Iterable[str], rule="F-FWD"):
         for q in gp:
             if q in cf.bound and may_be_none(cf.bound[q]) is not True:
                 forwarded[q] = cf.bound[q]
-        if not forwarded and (any(kw.arg is None for kw in cf.node.keywords) or any(isinstance(x, ast.Starred) for x in cf.node.args)):
+        from .kinds import Kw
+
+        opaque_star = any(isinstance(x, ast.Starred) for x in cf.node.args) or any(kw.arg is None and not isinstance(strip_none(ctx.interp.kind_at(cf.caller, kw.value)), Kw) for kw in cf.node.keywords)
+        if not forwarded and opaque_star:
             res.unknown(rule, f, text, f"{cf.callee.short}:forwarded", "arguments are passed through * / ** unpacking: what is forwarded is not visible at the call", where)
             continue
         res.check(
